@@ -339,6 +339,62 @@ static void cells(seqx::Runner &R, int only_start = -1, int only_comp = -1, int 
             }
 }
 
+// ---------------------------------------------------------------------------------------------- reference result -> value future
+// "future<T&> can be used to construct future<T>": an async<int&> bound to a future<int> by construction, by a function
+// returning it, or by operator<<. The value future must hold the referred value.
+static cocls::future<int> fn_ref_as_value(Ctx &c, int k) { return level<int &>(c, k, Guard()); }
+static const char *rv_names[] = {"future<T>(async<T&>)", "fn->future<T>", "future<T><<async<T&>"};
+static void run_refvalue_cell(seqx::Runner &R, int how, int comp, int depth) {
+    std::ostringstream d;
+    d << "refvalue;how=" << how << ":" << rv_names[how] << ";completion=" << compl_names[comp] << ";depth=" << depth;
+    R.begin(d.str());
+    int64_t base = seqx::live_allocs();
+    g_guard_live = g_guard_ctor = g_val_live = 0;
+    bool susp = comp == SUSP_VALUE || comp == SUSP_THROW;
+    {
+        Ctx c;
+        c.comp = comp;
+        cocls::promise<void> gate_p = c.gate.get_promise();
+        std::unique_ptr<cocls::future<int>> f;
+        switch (how) {
+            case 0: f.reset(new cocls::future<int>(level<int &>(c, depth, Guard()))); break;
+            case 1: f.reset(new cocls::future<int>(fn_ref_as_value(c, depth))); break;
+            default:
+                f.reset(new cocls::future<int>());
+                *f << level<int &>(c, depth, Guard());
+                break;
+        }
+        R.step();
+        if (susp) {
+            if (f->ready()) R.fail("async/delivered-before-completion", "value future ready while the coroutine is still suspended");
+            gate_p();
+            R.step();
+        } else
+            gate_p();
+        for (int k = 1; k <= 3; k++)
+            if (c.runs[k] != (k <= depth ? 1 : 0)) R.fail("async/body-count", "body of level %d executed %d times", k, c.runs[k]);
+        int expect_kind = (comp == SYNC_VALUE || comp == SUSP_VALUE) ? 1 : 2;
+        Obs o = observe(*f);
+        if (o.kind != expect_kind || (expect_kind == 1 && o.val != 42))
+            R.fail("async/wrong-delivery", "value future bound to a reference coroutine holds kind=%d val=%ld, expected kind=%d val=42", o.kind, o.val, expect_kind);
+        f.reset();
+        R.outcome(seqx::mix((uint64_t)expect_kind, (uint64_t)how * 16 + (uint64_t)depth));
+    }
+    if (g_guard_live != 0) R.fail("async/raii-balance", "%ld argument/local guards still alive (constructed %ld)", g_guard_live, g_guard_ctor);
+    if (!R.case_fail && seqx::live_allocs() != base) R.fail("async/frame-balance", "%ld allocations not released (frame leaked?)", (long)(seqx::live_allocs() - base));
+    R.state(seqx::hash_str(d.str()));
+    R.end(true);
+}
+static void refvalue_cells(seqx::Runner &R, int only_how = -1, int only_comp = -1, int only_depth = -1) {
+    for (int how = 0; how < 3; how++)
+        for (int cm = 0; cm < NCOMPL; cm++)
+            for (int depth = 1; depth <= 3; depth++) {
+                if (only_how >= 0 && (how != only_how || cm != only_comp || depth != only_depth)) continue;
+                if (R.stop()) return;
+                if (R.next_case()) run_refvalue_cell(R, how, cm, depth);
+            }
+}
+
 }  // namespace
 
 void seqx_run(seqx::Runner &R, const std::string &) {
@@ -348,6 +404,7 @@ void seqx_run(seqx::Runner &R, const std::string &) {
     cells<MoveOnly>(R);
     cells<Counted>(R);
     cells<int &>(R);
+    refvalue_cells(R);
 }
 
 void seqx_replay(seqx::Runner &R, const std::string &c) {
@@ -365,6 +422,10 @@ void seqx_replay(seqx::Runner &R, const std::string &c) {
     for (int i = 0; i < NCOMPL; i++)
         if (c.find(std::string("completion=") + compl_names[i] + ";") != std::string::npos) cm = i;
     depth = atoi(c.c_str() + c.find("depth=") + 6);
+    if (c.rfind("refvalue;", 0) == 0) {
+        refvalue_cells(R, atoi(c.c_str() + c.find("how=") + 4), cm, depth);
+        return;
+    }
     if (c.find("type=int") != std::string::npos)
         cells<int>(R, st, cm, depth);
     else if (c.find("type=void") != std::string::npos)
